@@ -100,15 +100,17 @@ CHECKS = {
         "with count/total, the loader returns every written value and inserts C<n> after every A<n>, _recursive_guesses emits every combination with the mask applied, every pre-terminal has exactly "
         "one adopting parent. The composition of these facts is argued in DESIGN.md, not machine-checked. Bounded: every supported training password is in the --skip_brute stream and the mass is 1.",
    note="composition argument not an obligation; *_detection callee contracts discharged under C05; one-to-one case-mapping domain as in the statement"),
- 'C13': dict(level='other', technique=TECH + " for the OMEN score; read-only frame of the scorer decided on the AST; score-vs-guesser as bounded stand-in",
-   text="OmenScorer.parse returns the level sum or -1 (all strings, all tables); PCFGPasswordScorer.parse, OmenScorer.parse and the multi-word detector functions they consult never update the scorer "
-        "(syntactic frame, all paths), so the score is a function of string and ruleset. Bounded: every non-zero score is matched by the real guesser emitting that string from a pre-terminal of that probability; "
-        "e-mail/website strings score 0. Known finding F15.",
-   note="PCFGPasswordScorer.parse has no functional contract (detectors + seven lookup loops): the promise itself rests on the stated bound"),
- 'C20': dict(level='other', technique="frame obligation decided on the AST (contract-style 'assigns' clause for the file system); filter semantics by a bounded stand-in on the real CLI",
-   text="All paths: the only statements of edit_rules.py that change the file system are open(<rules_dir>/<rule>/Grammar/grammar.txt, 'w') and shutil.copytree(source, copy). "
+ 'C13': dict(level='other', technique=TECH + "; read-only frame of the scorer decided on the AST; score-vs-guesser as bounded stand-in",
+   text="PCFGPasswordScorer.parse (all strings, all tables): e-mail / website inputs are classified e / w with probability 0, unsupported structures score 0, the score is exactly the "
+        "left-to-right product of the table entries of every detected segment and of the base structure (0 when one is missing), category p needs a score above the limit or an OMEN level "
+        "within the maximum, no field of the scorer is updated; OmenScorer.parse returns the level sum or -1. Frame (AST): scoring never updates the scorer or its multi-word detector. "
+        "Bounded: every non-zero score is matched by the real guesser emitting that string from a pre-terminal of that probability. Known finding F15.",
+   note="that the multiplied segments form a pre-terminal the guesser emits (same tables, same segmentation) rests on the stated bound; detectors trusted as in C05"),
+ 'C20': dict(level='other', technique=TECH + " with the regex engine abstracted to uninterpreted functions; file-system frame decided on the AST; real CLI as bounded stand-in",
+   text="edit_length, edit_terminal_set, check_regex (all grammars and parameters): the result is exactly the concatenation, in order, of the lines passing the declarative filter "
+        "(A/D/O/K/X count their number, Y counts 4, total 0 kept, max 0 unbounded; every label letter in the set; every regex matches the structure). All paths: the only statements of edit_rules.py that change the file system are open(<rules_dir>/<rule>/Grammar/grammar.txt, 'w') and shutil.copytree(source, copy). "
         "Bounded: grammar.txt after editing == original minus the structures failing the requested filters, survivors unchanged and in order, other files byte-identical, --copy leaves the source "
         "untouched, guesses of the edited ruleset within the length bounds. Known finding F12 (context-sensitive segments counted as one character).",
-   note="re.findall/re.search/int() semantics are outside the verifiable subset; no function of edit_rules.py is under a functional contract"),
+   note="re.findall/re.search/split/strip/int() uninterpreted (A-TOK validated only by the stand-in); edit_rules() orchestration not under a functional contract"),
 }
 NOT_APPLICABLE = {}
